@@ -1,5 +1,5 @@
 #!/usr/bin/env python3
-"""K15 (C11-3): MultitaskMultivariateNormal inherits MultivariateNormal.unsqueeze, which rebuilds the result with
+"""D30 (C11-3): MultitaskMultivariateNormal inherits MultivariateNormal.unsqueeze, which rebuilds the result with
 self.__class__(mean=self.loc.unsqueeze(dim), covariance_matrix=...): the flat loc is handed to the multitask constructor (which expects
 the n x t mean) and the layout flag is lost.  Exits 1 while the unsqueezed distribution is not the same joint Gaussian with one more
 batch dimension."""
